@@ -5,6 +5,7 @@ import (
 	"reflect"
 
 	gcmp "github.com/google/go-cmp/cmp"
+	"github.com/google/go-cmp/cmp/cmpopts"
 )
 
 func Pipe[T any, U any](elem T, f func(T) U) U {
@@ -32,8 +33,15 @@ func Printf1[T any](fmtstr string, arg T) {
 	fmt.Printf(fmtstr, arg)
 }
 
+// Structural equality for all Folang values:
+// nil and empty slices are the same value, and records may have lower case (unexported) fields.
+var opEqualOptions = []gcmp.Option{
+	cmpopts.EquateEmpty(),
+	gcmp.Exporter(func(reflect.Type) bool { return true }),
+}
+
 func OpEqual[T any](e1 T, e2 T) bool {
-	return gcmp.Equal(e1, e2)
+	return gcmp.Equal(e1, e2, opEqualOptions...)
 }
 
 func OpNotEqual[T any](e1 T, e2 T) bool {
